@@ -56,6 +56,8 @@ TPhase == UNCHANGED owner /\ Ev("ud.phase") /\ Internal /\ NoJudge /\ Obs /\ UNC
 TQuiesce == /\ UNCHANGED owner /\ Ev("ud.quiesce") /\ Internal /\ Obs
             /\ Judge(F(\A d \in must : \E s \in 1..MaxSocks : <<s, d>> \in bgot, "a datagram sent at light load never reached the backend")
                      \cup F(\A d \in must : (\E s \in 1..MaxSocks : <<s, d>> \in breplied) => <<d[1], d>> \in ugot, "a reply sent at light load never reached the user")
+                     \cup F(E.name # "push" \/ \A x \in breplied : x[2][2] >= 900000 => <<x[2][1], x[2]>> \in ugot,
+                            "a reply the backend sent on a quiet user's socket never arrived although replies kept flowing at less than the idle time (the socket was closed while in use)")
                      \cup F(E.name # "tiny" \/ \A t \in tinySent : \E g \in tinyGot : g[2] = t, "a short datagram sent at light load never reached the backend"))
             /\ must' = {} /\ UNCHANGED <<tinySent, tinyGot, dead>>
 TCut == UNCHANGED owner /\ Ev("ud.cut") /\ Internal /\ NoJudge /\ Obs /\ UNCHANGED <<must, tinySent, tinyGot, dead>>
